@@ -640,4 +640,62 @@ EQUIV = [
     ("null-move-guard-reordered", EN, "    if allow_null && depth >= 3 && !is_check(board, board.to_move) {", "    if depth >= 3 && allow_null && !is_check(board, board.to_move) {", "conjuncts reordered"),
     ("info-window-const", EN, "    let mate_window = 15;", "    let mate_window = 20;", "wider mate window (still consistent in all arms)"),
     ("go-unknown-arm-comment", UC, "            _ => (),\n        }\n        i += 1;", "            _ => {}\n        }\n        i += 1;", "unit arm spelled as a block"),
+    ("ucinewgame-clears-table", UC, """            "ucinewgame" => (), // we don't keep any internal state really so no need to reset anything here""", """            "ucinewgame" => draw_table.clear(),""", "harmless extra reset: position clears anyway"),
+    ("poll-sleep-2ms", UC, "Err(_) => thread::sleep(Duration::from_millis(1)),", "Err(_) => thread::sleep(Duration::from_millis(2)),", "polling period"),
+    ("send-before-record", EN, """                best_move = Some(mov.clone());
+                tx.send(mov.clone()).unwrap();""", """                tx.send(mov.clone()).unwrap();
+                best_move = Some(mov.clone());""", "same region, other order"),
+    ("quiesce-standpat-gt", EN, """    if alpha < stand_pat {
+        alpha = stand_pat;
+    }""", """    if stand_pat > alpha {
+        alpha = stand_pat;
+    }""", "comparison spelled the other way round"),
+    ("corner-ifs-reordered", UC, """    if player_move.contains("a8") {
+        board.take_away_castling_rights(CastlingType::BlackQueenSide, zobrist_hasher);
+    }
+    if player_move.contains("h8") {
+        board.take_away_castling_rights(CastlingType::BlackKingSide, zobrist_hasher);
+    }""", """    if player_move.contains("h8") {
+        board.take_away_castling_rights(CastlingType::BlackKingSide, zobrist_hasher);
+    }
+    if player_move.contains("a8") {
+        board.take_away_castling_rights(CastlingType::BlackQueenSide, zobrist_hasher);
+    }""", "independent ifs reordered"),
+    ("fen-rows-checked-earlier", BD, """        let half_move_clock = fen_config[4].parse::<u32>();
+        if half_move_clock.is_err() {
+            return Err("Could not parse fen string: Invalid half move value");
+        }
+""", """        if fen_config[0].split('/').count() != 8 {
+            return Err("Could not parse fen string: Invalid number of rows provided, 8 expected");
+        }
+        let half_move_clock = fen_config[4].parse::<u32>();
+        if half_move_clock.is_err() {
+            return Err("Could not parse fen string: Invalid half move value");
+        }
+""", "additional early rejection of the same malformed input"),
+    ("go-arms-reordered", UC, """            "wtime" => {
+                gt.wtime = commands[i + 1].parse().unwrap();
+                i += 1;
+            }
+            "btime" => {
+                gt.btime = commands[i + 1].parse().unwrap();
+                i += 1;
+            }""", """            "btime" => {
+                gt.btime = commands[i + 1].parse().unwrap();
+                i += 1;
+            }
+            "wtime" => {
+                gt.wtime = commands[i + 1].parse().unwrap();
+                i += 1;
+            }""", "match arms reordered"),
+    ("mate-window-named-const", EN, """    let mate_window = 15;
+    if eval >= MATE_SCORE - mate_window {""", """    const MATE_WINDOW: i32 = 15;
+    let mate_window = MATE_WINDOW;
+    if eval >= MATE_SCORE - mate_window {""", "window as a named constant"),
+    ("setoption-guarded-positional", UC, """                if commands.contains(&"DebugLogLevel") && commands.contains(&"Info") {""", """                if commands.len() > 4 && commands[2] == "DebugLogLevel" && commands[4] == "Info" {""", "positional match behind a length guard"),
+    ("fen-len-lt-guard", BD, """        if fen_config.len() != 6 {""", """        if fen_config.len() < 6 || fen_config.len() > 6 {""", "same length test as two inequalities"),
+    ("promotion-loop-by-index", MG, """    for kind in [Queen, Knight, Bishop, Rook] {
+        let mut new_board = board.clone();""", """    let kinds = [Queen, Knight, Bishop, Rook];
+    for kind in kinds {
+        let mut new_board = board.clone();""", "kinds array named"),
 ]
